@@ -30,7 +30,7 @@ var Check = &vrt.Check{
 		"sessions followed by clean sessions until one completes. Non-trivial = the fault hit after the handshake started and at least one handler event was recorded; " +
 		"distinct = (scenario, direction, cut offset) / (scenario, side, j) / history index",
 	Assumptions: []string{
-		"a cut delivers exactly k bytes to the reader, then both ends see EOF/closed; bytes of the opposite direction still in flight are lost",
+		"a cut delivers exactly k bytes to the reader, then both ends see EOF/closed; bytes of the opposite direction still in flight are lost; two writer views are enumerated for every cut: the crossing write fails, or (buffered link) all later writes report success and the failure shows only at the next Read",
 		"receiving policies are accept/defer only, so a reject always means the receiver already holds the message (dedup by MID)",
 		"both the in-memory reference handler and the real directory mailbox (on /dev/shm, fresh DirHandler instances per session) are exercised; the directory leg's storage error is a genuine RLIMIT_FSIZE partial write + EFBIG",
 	},
@@ -147,13 +147,14 @@ func run(c vrt.Case) vrt.Obs {
 		}
 		n := ref.Link.Written
 		if p.Kind == "cuts" {
-			for d := 0; d < 2; d++ {
+			for dm := 0; dm < 4; dm++ {
+				d, silent := dm%2, dm >= 2
 				for k := int64(p.Shard); k <= n[d]; k += int64(p.Shards) {
 					o.Evals++
 					w := newWorld(sc)
 					before := len(o.Violations)
-					res := w.session(vpipe.Plan{CutDir: d, CutAt: k})
-					what := fmt.Sprintf("scenario %d, cut after %d of %d bytes in direction %d", p.Scenario, k, n[d], d)
+					res := w.session(vpipe.Plan{CutDir: d, CutAt: k, CutSilent: silent})
+					what := fmt.Sprintf("scenario %d, cut after %d of %d bytes in direction %d (writer %s)", p.Scenario, k, n[d], d, map[bool]string{false: "sees the failure", true: "does not notice: buffered link"}[silent])
 					b2fx.CheckReturned(&o, res, what)
 					ev := w.lg.Events()
 					b2fx.CheckSafety(&o, sc, ev)
@@ -165,9 +166,9 @@ func run(c vrt.Case) vrt.Obs {
 					if len(o.Violations) == before {
 						w.converge(&o, what)
 					}
-					detail(before, map[string]any{"scenario": sc.Describe(), "cut_dir": d, "cut_at": k, "bytes_in_direction": n[d]})
+					detail(before, map[string]any{"scenario": sc.Describe(), "cut_dir": d, "cut_at": k, "cut_silent": silent, "bytes_in_direction": n[d]})
 					if len(ev) > 2 {
-						o.Sig("s%d d%d k%d", p.Scenario, d, k)
+						o.Sig("s%d d%d k%d %v", p.Scenario, d, k, silent)
 					}
 					o.Count("cut_positions", 1)
 				}
@@ -256,7 +257,11 @@ func run(c vrt.Case) vrt.Obs {
 						k = ref.Link.Written[d] - r.Int63n(min64(40, ref.Link.Written[d]+1))
 					}
 					what = fmt.Sprintf("history %d fault %d: cut after %d bytes in direction %d", h, f, k, d)
-					res = w.session(vpipe.Plan{CutDir: d, CutAt: k})
+					silent := r.Intn(2) == 0
+					if silent {
+						what += " (buffered link: writer does not notice)"
+					}
+					res = w.session(vpipe.Plan{CutDir: d, CutAt: k, CutSilent: silent})
 				}
 				faults = append(faults, what)
 				b2fx.CheckReturned(&o, res, what)
